@@ -92,6 +92,7 @@ func checkC13(cx *Ctx, r *Report) {
 	r.NotDec = []string{"lexical acceptance of time.Parse", "HTML transport of NUL in RelayState (html/template)"}
 	r.Assume = []string{"chain semantics (C20, re-checked)"}
 	cx.checkDecodesWholeMessage(r, "R-STRICT", "xml.DecodeLogoutRequest")
+	cx.errDisciplineOfHandler(r, kLogout)
 	if !cx.requireC20(r) {
 		return
 	}
@@ -218,6 +219,7 @@ func checkC13(cx *Ctx, r *Report) {
 			continue
 		}
 		r.checkSources("R-VFG", key, w.InstrPos(sites[0]), vf.Deep(ls), s.allow, s.req, s.unchanged)
+		cx.checkStoresUnconditional(r, "R-MUST", "slo", vf, []fieldSink{{s.owner, s.field, s.allow, s.req, s.unchanged, ""}})
 	}
 	// the Issuer of the message
 	if li, n := vf.NestedFieldSources("samlp.LogoutResponseType", "Issuer", "saml.NameIDType", "Text"); n == 0 {
